@@ -233,12 +233,28 @@ def ensure_layout():
     return path, st
 
 
-def run_pv(args, timeout=3600):
+def ambient_env_names():
+    """Names of the environment variables the library under test reads (literal arguments of env::var / env::var_os
+    in its sources).  The specification has no such input: whatever the library reads from its process environment
+    is a configuration dimension the checks then explore (currently there is none)."""
+    import re, glob
+    names = set()
+    for f in glob.glob(os.path.join(REPO, "src", "**", "*.rs"), recursive=True):
+        try:
+            txt = open(f, errors="replace").read()
+        except OSError:
+            continue
+        names.update(re.findall(r'env::var(?:_os)?\(\s*"([A-Za-z0-9_]+)"', txt))
+    return sorted(names)
+
+
+def run_pv(args, timeout=3600, env_extra=None):
     """Runs the harness; returns (violations, summary)."""
     cmd = [PV] + [str(a) for a in args]
     t = time.time()
     try:
-        p = subprocess.run(cmd, stdout=subprocess.PIPE, stderr=subprocess.PIPE, text=True, timeout=timeout, cwd=VERIF)
+        p = subprocess.run(cmd, stdout=subprocess.PIPE, stderr=subprocess.PIPE, text=True, timeout=timeout, cwd=VERIF,
+                           env=dict(os.environ, **env_extra) if env_extra else None)
     except subprocess.TimeoutExpired:
         raise ToolError("harness timed out: " + " ".join(cmd[:3]))
     viols, summary = [], None
@@ -314,13 +330,16 @@ class Check:
                          "depth": r.depth, "wall_s": round(r.wall, 1), "ok": r.ok})
         return r
 
-    def pv(self, args, label=None, timeout=3600):
+    def pv(self, args, label=None, timeout=3600, env_extra=None):
         if getattr(self, "hang_seen", False):
             # the code under test hangs (reported): every further harness run would wait for its deadlines again
             log("[pv] %s skipped: a hang was already reported in this run" % (label or args[0]))
             return [], {"evaluations": 0, "distinct": 0, "distinct_nontrivial": 0, "violations": 0, "samples": [], "label": label or args[0],
                         "extra": {"skipped": "a hang was already reported"}}
-        viols, summary = run_pv(args + ["--replay-dir", self.replay_dir, "--seed", self.seed], timeout=timeout)
+        viols, summary = run_pv(args + ["--replay-dir", self.replay_dir, "--seed", self.seed], timeout=timeout, env_extra=env_extra)
+        if env_extra:
+            for v in viols:
+                v["detail"] = "%s [with %s in the environment]" % (v["detail"], ", ".join("%s=%s" % kv for kv in sorted(env_extra.items())))
         if any(v.get("kind") == "hang" for v in viols):
             self.hang_seen = True
         self.viols += viols
